@@ -363,6 +363,11 @@ public:
       return true;
     } else if (o.is_bottom()) {
       return false;
+    } else if (o.is_top()) {
+      return true;
+    } else if (this->is_top()) {
+      // top is represented by an empty list
+      return false;
     } else {
 
       unsigned j = 0;
